@@ -2,17 +2,47 @@
 
 package clientsets
 
-import "time"
+import (
+	"sync"
+	"time"
+)
 
-// VerifHeartbeat feeds one heartbeat outcome to the real readiness bookkeeping.
-func VerifHeartbeat(c ClientSets, shard int, server string, ok bool) {
-	c.(*clientSets).setLeaderStatus(shard, server, ok)
+// Virtual time for the readiness hysteresis: setLeaderStatus reads time.Now()
+// directly, so the harness keeps a virtual clock (milliseconds, advanced only by
+// the case) and, right before each call, places lastChange at the real instant
+// that lies "virtual age" in the past. The virtual instant at which the real code
+// stamped lastChange is remembered per status object. No logic is re-implemented:
+// when and whether lastChange is stamped is decided by setLeaderStatus alone.
+var verifStamp sync.Map // *heartbeatStatus -> int64 (virtual ms)
+
+func verifStatus(c ClientSets, shard int) *heartbeatStatus {
+	if hs, ok := c.(*clientSets).leaderReady.Load(shard); ok {
+		return hs.(*heartbeatStatus)
+	}
+	return nil
 }
 
-// VerifAge lets d of (virtual) time pass for the readiness hysteresis of a shard.
-func VerifAge(c ClientSets, shard int, d time.Duration) {
-	if hs, ok := c.(*clientSets).leaderReady.Load(shard); ok {
-		st := hs.(*heartbeatStatus)
-		st.lastChange = st.lastChange.Add(-d)
+// VerifHeartbeatAt feeds one heartbeat outcome (or, with ok=true, the leader
+// change of clientSets.sync) to the real readiness bookkeeping at virtual time nowMs.
+func VerifHeartbeatAt(c ClientSets, shard int, server string, ok bool, nowMs int64) {
+	st := verifStatus(c, shard)
+	var before time.Time
+	if st != nil {
+		if v, found := verifStamp.Load(st); found {
+			st.lastChange = time.Now().Add(-time.Duration(nowMs-v.(int64)) * time.Millisecond)
+		}
+		before = st.lastChange
+	}
+	c.(*clientSets).setLeaderStatus(shard, server, ok)
+	after := verifStatus(c, shard)
+	if after != nil && (st == nil || !after.lastChange.Equal(before)) {
+		verifStamp.Store(after, nowMs)
+	}
+}
+
+// VerifForget drops the bookkeeping of a finished case.
+func VerifForget(c ClientSets, shard int) {
+	if st := verifStatus(c, shard); st != nil {
+		verifStamp.Delete(st)
 	}
 }
